@@ -24,6 +24,9 @@ type Replay struct {
 	ShrinkEv  int      `json:"shrink_evaluations"`
 	Trace     []string `json:"trace"`
 	LogHash   string   `json:"event_log_hash"`
+	// Regenerate: the tape is not stored; it is regenerated from (Seed, Run).
+	// Used when the run never returns, so that it cannot be recorded or shrunk.
+	Regenerate bool `json:"regenerate,omitempty"`
 }
 
 type KnownFinding struct {
@@ -148,8 +151,27 @@ func (sc *Scenario) Main(o Options) int {
 	// reported as the violation it is.
 	nondet := ""
 	for i := 0; i < 24 && i < n; i++ {
-		a, ca := sc.Execute(NewGenTape(SubSeed(o.Seed, uint64(i))), uint64(i), o.Seed, o.Thorough, newStats(), false)
-		b, cb := sc.Execute(NewGenTape(SubSeed(o.Seed, uint64(i))), uint64(i), o.Seed, o.Thorough, newStats(), false)
+		var a, b *Violation
+		var ca, cb *Ctx
+		// the spot check runs under the same "does not return" rule as the worker pool
+		finished := make(chan struct{})
+		go func() {
+			a, ca = sc.Execute(NewGenTape(SubSeed(o.Seed, uint64(i))), uint64(i), o.Seed, o.Thorough, newStats(), false)
+			b, cb = sc.Execute(NewGenTape(SubSeed(o.Seed, uint64(i))), uint64(i), o.Seed, o.Thorough, newStats(), false)
+			close(finished)
+		}()
+		select {
+		case <-finished:
+		case <-time.After(120 * time.Second):
+			if site := stuckInLibrary(); site != "" {
+				path := sc.writeHangReplay(o.Seed, uint64(i), o.Thorough, site)
+				fmt.Printf("VIOLATION property=%s replay=%s\n  signature: %s/does-not-return/%s\n  detail: run %d of seed %d has been executing library code for 120s without returning (innermost library frame: %s)\n",
+					sc.ID, path, sc.ID, site, i, o.Seed, site)
+				return 1
+			}
+			fmt.Fprintf(os.Stderr, "WATCHDOG: %s run %d (seed %d) did not finish within 120s and is not inside library code: harness trouble (exit 2)\n", sc.ID, i, o.Seed)
+			return 2
+		}
 		sa, sb := "", ""
 		if a != nil {
 			sa = a.Sig
@@ -282,7 +304,28 @@ func (sc *Scenario) replay(o Options, known *KnownFile) int {
 		fmt.Fprintf(os.Stderr, "replay file is for %s, not %s\n", rp.Property, sc.ID)
 		return 2
 	}
-	v, c := sc.Execute(NewReplayTape(rp.Tape), rp.Run, rp.Seed, rp.Tier == "thorough", newStats(), true)
+	tape := NewReplayTape(rp.Tape)
+	if rp.Regenerate {
+		tape = NewGenTape(SubSeed(rp.Seed, rp.Run))
+	}
+	var v *Violation
+	var c *Ctx
+	done := make(chan struct{})
+	go func() {
+		v, c = sc.Execute(tape, rp.Run, rp.Seed, rp.Tier == "thorough", newStats(), true)
+		close(done)
+	}()
+	select {
+	case <-done:
+	case <-time.After(120 * time.Second):
+		if site := stuckInLibrary(); site != "" {
+			fmt.Printf("  signature: %s/does-not-return/%s\n  detail: the replayed run has been executing library code for 120s without returning\n", sc.ID, site)
+			fmt.Printf("VIOLATION property=%s replay=%s\n", sc.ID, o.Replay)
+			return 1
+		}
+		fmt.Fprintln(os.Stderr, "replay did not finish within 120s and is not inside library code: harness trouble")
+		return 2
+	}
 	for _, l := range c.trace {
 		fmt.Println(l)
 	}
